@@ -136,6 +136,7 @@ TS_OUT = ["20240101T000000Z", "2024-01-01T00:00Z", "2024-01-01T00Z", "2024-01-01
           "+002024-01-01T00:00:00Z", "2024-01-01T00:00:00+02:00[Europe/Helsinki]"]
 TS_EDGE = ["0000-01-01T00:00:00Z", "9999-12-30T22:00:00Z", "9999-12-30T22:00:00.999999999Z", "2000-02-29T23:59:60Z",
            "2024-02-29T12:00:00.000000001-00:00", "1969-12-31T23:59:59.999999999Z", "1970-01-01T00:00:00+00:00",
+           "1970-01-01T00:00:00.5+01:00", "1969-12-31T23:30:00.5-01:00",
            "2024-12-31T23:59:59,5+25:59", "2024-01-01 00:00:00z", "2024-06-15t07:08:09.120-03:30",
            "2024-01-01T00:00:00+05:30:15", "2100-02-28T23:59:59Z", "2400-02-29T00:00:00Z", "0001-01-01T00:00:00-12:00"]
 
@@ -374,6 +375,10 @@ def make_env(r):
     for i, t in enumerate(txns):
         secs = base + r.randrange(0, 400) * 86400 + r.randrange(86400)
         frac = r.choice([0, 0, 0, 1, 500000000, 999999999, 120000000])
+        if i < 2:
+            # two transactions next to the epoch with a fraction: bounds spelled from them with an offset have civil date
+            # and instant on different sides of 1970-01-01T00:00Z (mixed-sign pair in jiff 0.2.5; repaired finding F17)
+            secs, frac = r.choice([-3600, -1800, -1, 0, 1800]), r.choice([400000000, 500000000, 600000000, 1, 999999999])
         ns = secs * 10 ** 9 + frac
         instants.append(ns)
         dt = datetime.datetime(1970, 1, 1) + datetime.timedelta(seconds=secs)
